@@ -356,6 +356,20 @@ UNITS += [
 """),
 ]
 
+UNITS += [
+    Unit(name="packer_process_blob", file=PK, kind="block", within="impl<BE: DecryptWriteBackend> Packer<BE> {",
+         anchor="@closure:.parallel_map_scoped(scope, |(data, id): (Bytes, BlobId)|",
+         block_sig="fn packer_process_blob(be: &VProcessBe, data: Bytes, id: BlobId) -> (r: RusticResult<(Vec<u8>, BlobId, u64, Option<NonZeroU32>)>)",
+         block_tail="",
+         functions=["blob::packer::Packer::new (closure of the parallel stage: process one blob)"],
+         rewrites=[Rw("u64::from(data_len)", "(data_len as u64)", why="u32 -> u64")],
+         contract="""
+    ensures
+        // the processed bytes travel on under the id of the plaintext they were made from, with the lengths process_data reports
+        /*@processed_blob_keeps_its_id*/ r matches Ok(x) ==> x.1 == id && (x.0@, x.2, x.3) == (PROCESSED(data.data@).0, PROCESSED(data.data@).1 as u64, PROCESSED(data.data@).2),
+"""),
+]
+
 # repair index queues the packs whose headers are re-read with the size PackHeader::from_file is given: the unit lives in C12's
 # spec (PackChecker::check_pack) and is verified as part of this check as well
 SATELLITES = [("C12", ["NodeAction", "ModifierChange", "ModifierAction", "TreeAction", "RewriteVisitor", "repair_index_check_pack"])]
